@@ -245,7 +245,7 @@ func init() {
 			{Name: "flat-ac", Weight: 2, Fn: c03Profile("ac")},
 		},
 		Components: map[string][]string{
-			"real": {"pkg/blobstore/local: periodic syncer (both routines), persistent block list, state store, allocator, record array, old/current/new map (restart promotion), flat/hierarchical blob access"},
+			"real": {"pkg/blobstore/configuration new_blob_access.go (W-config runs: the store is assembled by the unmodified NewBlobAccessFromConfiguration; top-level decorators, metrics wrappers, allocator collectors)", "pkg/blobstore/local: periodic syncer (both routines), persistent block list, state store, allocator, record array, old/current/new map (restart promotion), flat/hierarchical blob access"},
 			"stub": {"block devices (simdisk)", "state directory (simdir)", "clock", "program.Group (harness-owned shutdown context)", "scheduling (verifsimrt)"},
 		},
 		Rule:           "a reference forward run is recorded; for every step k (sampled beyond the tier's cap) the same execution is replayed with a graceful shutdown requested at step k, run until the syncer routine returns, restarted with the same configuration and every acknowledged, certainly-not-evicted upload (allocations at the probe <= allocations at its invocation + old_blocks) must be readable; in addition every quiescent point after a completed commit is crashed (process crash) and everything acknowledged before the commit started must be readable; non-trivial = uploads acknowledged and more than two shutdown points",
